@@ -70,9 +70,18 @@ CLAIMS = {
          "of every size class initialised from byte patterns: == on all pairs, recorded hasher writes, {:?}/{:#?}.",
          COMMON_NOTE + "the byte view (from_raw_parts over size_of::<Self>()) is taken as given: unions with padding are not generated because reading padding is undefined; the refusal without `unsafe` is proved on the model and tied to the code by the attribute-layer correspondence (C13).",
          "Lean 4 theorem + differential correspondence on byte patterns"),
+ "C16": ("Theorems dispatch_perm and traits_membership_perm (the model's result is invariant under every reordering of the trait -> metas map: "
+         "it is only queried by key and handlers only ask membership), into_order_independent (the Into impls are emitted in an order that is "
+         "a function of the set of targets), and the generated-table lemma hashCollections_only_keyed (every HashMap/HashSet type occurring in "
+         "/repo/src is one of the key-queried ones; regenerated from the source on every run). Tie: each input expanded repeatedly in one "
+         "process and in several fresh processes (fresh hash seeds), all token streams and diagnostics compared; impl order compared with the model.",
+         COMMON_NOTE + "determinism of syn/quote/proc-macro2 themselves is assumed; the translator's list of hash collections is syntactic (type paths named HashMap/HashSet).",
+         "Lean 4 theorems + regenerated source table + repeated/in-process and cross-process expansion comparison"),
 }
 
 ENGINES = [
+    {"name": "translator", "path": "harness/vtool/src/extract.rs", "kind_free_text": "regenerates lean/EduceModel/Generated/*.lean (quote! templates, panic-capable expressions, builder literals, cfg gates, hash collections) from /repo/src on every run"},
+    {"name": "in-process", "path": "vlib/attr.py", "kind_free_text": "hooked rlib view of /repo driven by vtool expand: outcome / impl headers / token streams vs the Lean attribute-layer model fed with syn's oracle records"},
     {"name": "lean-model", "path": "lean/", "kind_free_text": "Lean 4 model of the generator (Gen), semantics (Sem), reference semantics (Spec), theorems (Props); lean_exe driver"},
     {"name": "b1-behavioural", "path": "vlib/b1.py", "kind_free_text": "real proc-macro + rustc on generated definitions; three-way diff impl/model/spec"},
 ]
